@@ -458,6 +458,7 @@ def run(ctx):
     ctx.do(_c04.r4_11)  # .mh_sequences stays readable: no flag name breaks its line format
     from . import c12 as _c12b
     ctx.do(_c12b.r12_5)  # flag rows of removed messages do not survive in the database
+    ctx.do(_c12b.r12_1)  # keys and UIDs come back from the db in the columns they were written to: nothing old is announced as new
     ctx.note("periodic poll liveness (clean-up before the emptiness test of executing_tasks) is decided by C10 R10.7")
     for k, v in WRITEBACK_EXEMPT.items():
         ctx.trust(f"frozen write-back exemption: {k} - {v}")
